@@ -53,8 +53,19 @@ Fixpoint replay_passes (c : cfg) (st : item * N) (ps : list prec) : bool :=
     end
   end.
 
+(* the state the replay starts from: the seed as the driver built it. The theorems of Stage/PassSpec.v start from
+   [seed0] (a row of the queue: no via); a seed born from an outlink carries a via, which the model records in [nvia]
+   (CheckConsistency: only the seed may have one) - for those the run of the model functions is compared all the same *)
+Definition seed_init (c : pcase) : item * N :=
+  match c_passes c with
+  | p :: _ => match p_t_pre p with
+              | Node i _ => (Node (Info 0 (c_url c) Fresh (nvia i) (c_hops c) 0) [], 1)
+              end
+  | [] => seed0 (c_url c) (c_hops c)
+  end.
+
 Definition diff_case (c : pcase) : bool :=
-  negb (c_finished c && replay_passes (c_cfg c) (seed0 (c_url c) (c_hops c)) (c_passes c)).
+  negb (c_finished c && replay_passes (c_cfg c) (seed_init c) (c_passes c)).
 Definition diffs (l : list pcase) := bad_idx diff_case l.
 
 (* ---- monitors: on the observed trees only ---- *)
